@@ -6,6 +6,7 @@ import TornadoModel.C11.Contract3
 import TornadoModel.C11.StdR
 import TornadoModel.C11.Arrival4
 import TornadoModel.C11.Sched3
+import TornadoModel.C11.Stall
 namespace TornadoModel.C11
 variable (R : Nat → Bytes → Option Nat)
 
@@ -418,5 +419,68 @@ example : table stdR (init 4 100) [.readUntil [13, 10] none, .feed [97, 13], .fe
 example : dataEvs (runEvs (run stdR (init 4 100) [.readUntil [13, 10] none, .feed [97, 13], .feed [10, 98, 99, 100],
             .readBytes 2 true, .readInto 3 false, .feed [101, 102]]).2) =
     [(0, .bytes [97, 13, 10]), (1, .bytes [98, 99]), (2, .into 3 [100, 101, 102])] := by decide
+
+/-! ### no stalled read (added after the missed seeded change C11-1) -/
+
+/-- **no_stall_on_event**: after the read event handler ran, a read that is still pending on the still open stream
+    is not satisfiable from the buffered bytes: `_find_read_pos` on the buffer as it is now (the WHOLE buffer, not a
+    suffix of it) says "not found, not over max_bytes". -/
+theorem no_stall_on_event (s s1 : St) (h : handleRead R s = (s1, false)) (ho : s1.closed = false)
+    (hf : s1.rfut.isSome = true) : findReadPos R s1 = some none := by
+  unfold handleRead at h
+  have hp := readLoop_pending R s
+  generalize readLoop R s = x at h hp
+  obtain ⟨s2, res⟩ := x
+  cases res with
+  | raised r =>
+    have hc : ∀ e, (close R s2 e).closed = true := fun e => close_closed R s2 e
+    cases r <;> simp only [Prod.mk.injEq, Bool.true_eq_false, and_false, and_true] at h <;>
+      (try (subst h; rw [hc] at ho; exact absurd ho (by simp)))
+  | pos p =>
+    cases p with
+    | none => simp at h; subst h; exact hp rfl
+    | some p =>
+      simp at h; subst h
+      rw [readFromBuffer_rfut] at hf; simp at hf
+
+theorem findReadPos_addIo (s : St) (r w : Bool) : findReadPos R (addIo s r w) = findReadPos R s := by
+  unfold addIo
+  split
+  · rfl
+  · split <;> rfl
+
+/-- **no_stall_on_call**: the same for the call path (`_try_inline_read`): a read method that returns with its read
+    still pending leaves a buffer that does not satisfy the request. -/
+theorem no_stall_on_call (s s1 : St) (h : tryInlineRead R s = (s1, none)) (hf : s1.rfut.isSome = true) :
+    findReadPos R s1 = some none := by
+  unfold tryInlineRead at h
+  split at h
+  · simp at h
+  · simp at h; subst h; rw [readFromBuffer_rfut] at hf; simp at hf
+  · split at h
+    · simp at h
+    · have hp := readLoop_pending R s
+      generalize readLoop R s = x at h hp
+      obtain ⟨s2, res⟩ := x
+      cases res with
+      | raised r => simp at h
+      | pos p =>
+        cases p with
+        | none => simp at h; subst h; rw [findReadPos_addIo]; exact hp rfl
+        | some p => simp at h; subst h; rw [readFromBuffer_rfut] at hf; simp at hf
+
+/-- **pending_until_not_ready**: in terms of the specification — while a `read_until(d)` is pending after a read event
+    on an open stream, the buffer is empty or does not contain `d` anywhere (`Spec.ready` is false). -/
+theorem pending_until_not_ready (s s1 : St) (d : Bytes) (h : handleRead R s = (s1, false)) (ho : s1.closed = false)
+    (hf : s1.rfut.isSome = true) (hb : s1.rbytes = none) (hd : s1.rdelim = some d) :
+    Spec.ready R (.until d s1.rmax) s1.buf = false :=
+  not_ready_until R s1 d hb hd (no_stall_on_event R s s1 h ho hf)
+
+-- non-vacuity (the witness of the seeded change): 1 byte, then the delimiter completed: the read is handed over at
+-- once with exactly the first record; and a pending read on a buffer without the delimiter
+example : dataEvs (runEvs (run stdR (init 65536 104857600)
+            [.readUntil [97, 97, 98] none, .feed [97], .feed [97, 98, 48, 97, 97, 98]]).2) = [(0, .bytes [97, 97, 98])] := by decide
+example : ((run stdR (init 65536 104857600) [.readUntil [97, 97, 98] none, .feed [97], .feed [97]]).1.rfut,
+           Spec.ready stdR (.until [97, 97, 98] none) [97, 97]) = (some 0, false) := by decide
 
 end TornadoModel.C11
